@@ -97,11 +97,28 @@ def single_module_condition(S):
     S.ensure("model-input-is-built-from-the-tracked-coordinates", set(id(x) for x in mi.meta.get("cat_of", [])) == {id(kw["x"]), id(kw["t"])})
 
 
-@scenario("C04", [C + "PINNCondition.__init__", C + "MeanCondition.__init__", C + "DeepRitzCondition.__init__", C + "SquaredError.forward", C + "AdaptiveWeightsCondition.__init__"], configs=["pinn", "mean", "deepritz", "squared-error"], bounded=BOUND)
+@scenario("C04", [C + "PINNCondition.__init__", C + "MeanCondition.__init__", C + "DeepRitzCondition.__init__", C + "SquaredError.forward", C + "AdaptiveWeightsCondition.__init__"], configs=["pinn", "mean", "deepritz", "squared-error", "adaptive-weights"], bounded=BOUND)
 def documented_reductions(S):
-    """post: PINN = mean over points of the squared residual summed over components; Mean/DeepRitz = plain mean"""
+    """post: PINN = mean over points of the squared residual summed over components; Mean/DeepRitz = plain mean;
+    AdaptiveWeights = squared error, every point weighted with its own learnable weight (initially 1) before the mean"""
     I = S.I
     torch = I.repo.externals["torch"]
+    if S.cfg == "adaptive-weights":
+        w = World(S, static=True)
+        cond = S.new(C + "AdaptiveWeightsCondition", w.model.obj, w.sobj, w.res, data_functions={"f": w.fdata}, parameter=w.D)
+        S.ensure("error-is-squared-error", I.isinstance_(S.getattr(cond, "error_fn"), S.find(C + "SquaredError")))
+        lw = S.getattr(S.getattr(cond, "adaptive_layer"), "weight")
+        S.ensure("one-learnable-weight-per-sampled-point", lw.requires_grad and lw.val.rank == 1 and lw.val.shape[0].size_term() == zint(w.n))
+        S.forall("weights-start-at-one", lw, lambda q: zreal(lw.val.at(q)) == 1)
+        L = S.tensor("unreduced", [w.n])
+        weighted = S.method(S.getattr(cond, "adaptive_layer"), "forward", L).val
+        S.forall("point-r-is-weighted-with-weight-r", Tensor(weighted), lambda q: zreal(weighted.at(q)) == zreal(lw.val.at(q)) * zreal(L.val.at(q)))
+        S.ensure_raises("a-non-static-sampler-is-rejected", lambda: S.new(C + "AdaptiveWeightsCondition", w.model.obj, w.sampler.obj, w.res), ["ValueError"])
+        S.method(cond, "forward")
+        S.ensure("residual-evaluated-once-per-forward", len(w.res.calls) == 1)
+        if len(w.res.calls) == 1:
+            check_binding(S, w, w.res.calls[0], -1)
+        return
     if S.cfg == "squared-error":
         N = S.int("N", 1)
         for m in (1, 2, 3):
